@@ -1,12 +1,20 @@
 #!/bin/sh
 # Build the framework from files on disk only (offline): Lean library + driver, harness crate,
 # git-ai debug binary with verif hooks. Everything lands under /verif/build and /verif/lean/.lake.
-set -e
 cd "$(dirname "$0")"
 export CARGO_NET_OFFLINE=true
 mkdir -p build evidence replays
-(cd lean && lake build)
+# 1. tables extracted from /repo's current sources (the committed copies may be stale)
+python3 scripts/extract_all.py
+# 2. Lean: the driver is essential; property modules are built one by one so that a module that no
+#    longer checks against the current tables does not block the others (its own check reports it)
+(cd lean && lake build driver) || exit 1
+for f in lean/GitAiModel/Props/C*.lean; do
+  m=$(basename "$f" .lean)
+  (cd lean && lake build "GitAiModel.Props.$m") >/dev/null 2>&1 || echo "setup: GitAiModel.Props.$m does not build (reported by ./check $m)"
+done
+# 3. Rust: harness (path dependency on /repo) and the git-ai binary with hooks
 cp /repo/Cargo.lock harness/Cargo.lock
-(cd harness && cargo build --offline)
-(cd /repo && cargo build --offline --features test-support,verif-hooks --bin git-ai --target-dir /verif/build/repo-target)
+(cd harness && cargo build --offline) || exit 1
+(cd /repo && cargo build --offline --features test-support,verif-hooks --bin git-ai --target-dir /verif/build/repo-target) || exit 1
 echo setup-done
